@@ -16,7 +16,7 @@ func init() {
 func genC13(tier string, seed int64) (*Family, error) {
 	pkg := "c13"
 	fam := &Family{
-		Prop: "C13", PkgPath: modPath + "/zz_verif/" + pkg, Files: map[string]string{},
+		Prop: "C13", BothOrders: true, PkgPath: modPath + "/zz_verif/" + pkg, Files: map[string]string{},
 		Bounds:    map[string]interface{}{"rules": 4, "layers": "<= 3 (thorough 4)", "layer_width": "<= 3", "shapes": "empty layers, unknown names, names repeated inside a layer"},
 		Cfg:       interp.Config{MaxSteps: 3_000_000, TrackAllocs: []string{"eMsg"}, TrackFields: []string{"engine.Gengine.returnResult"}},
 		Functions: []string{"engine.Gengine).ExecuteDAGModel"},
